@@ -85,6 +85,10 @@ CLAIMED = {
    text="Deductive proof that the certificate request built by lib/client/twofa carries exactly the serialisation (PKIX DER in a PUBLIC KEY PEM block, or the SSH authorized-key line) of signer.Public() of the signer it was given (ghost chain over MarshalPKIXPublicKey / pem.EncodeToMemory / ssh.NewPublicKey / MarshalAuthorizedKey down to the request body); call-graph rules pin every private-key serialiser in /repo (PKCS1, PKCS8, OpenSSH) to the four client functions that write key files and to the server's configuration generator - none in code that builds requests; each of those writes the key file through ioutil.WriteFile with mode 0600 (call-site clauses; client code has no os.Create/os.OpenFile); the agent clean-up examines every identity the agent lists before the only Add call; the client generates only P-256/P-384 (plus RSA, Ed25519) keys and the server's key-line pattern accepts the authorized-key line of each of those types (regular-expression inclusion decided exactly by the engine, constant-pattern regexp.MatchString given its exact meaning).",
    note=TRUST + "That bytes reach only the intended sink (the data flow through bytes.Buffer/multipart inside createKeyBodyRequest) is argued by the absence of private-key serialisers, not by a taint proof; the FIDO/U2F device library (github.com/flynn/u2f/u2fhid) does not type-check in this sandbox (cgo/libudev) and is a body-less stub; removal decisions inside the agent clean-up (certificate + same comment) are not under contract; RSA key size and agent lifetimes are not claimed.",
    design="7 (C19)"),
+ "C15": dict(
+   text="Deductive proof (a) that every SaveUserProfile call in cmd/keymasterd is reached only with a profile loaded in this request, for the same user, from the primary (ghost 'from cache' flag set by LoadUserProfile): while the primary is unreachable nothing that would change a profile is attempted; (b) over copyDBIntoSQLite with a ghost transaction handle: the only statements issued directly on a database are SELECTs on the source; every insert statement is prepared on the one transaction begun on the destination, after that transaction emptied both mirrored tables; nothing is prepared or executed on the destination outside it; the commit happens only after both tables were emptied - so a completed copy mirrors additions, changes and deletions, and (database/sql transactions being atomic, trusted) a copy that fails at any statement leaves the previous content.",
+   note=TRUST + "NOT covered, declared out of reach of contracts on /repo's functions: the gob encode/decode round trip of a profile (encoding/gob), the SQL engines and their crash behaviour (statement-level fault injection is another technique), the column mapping of the copied rows (values travel through variadic interface packs the engine does not track), cache-first reads while the primary is reachable.",
+   design="7 (C15)"),
 }
 
 NOT_YET = "check not built yet in this snapshot of /verif (work in progress; see DESIGN.md section 7 for the planned contracts)"
